@@ -2,6 +2,7 @@ import Kaira.Proto
 import Kaira.Codes
 import Kaira.Decoders
 import Kaira.BM
+import Kaira.Dist
 import Kaira.Reed
 namespace Kaira.Verbs
 open Kaira Kaira.Proto Kaira.Codes Kaira.Decoders
@@ -68,6 +69,15 @@ def cfec (cs : CodeTable) (toks : List String) : Option String :=
     else
       let sg := Kaira.BM.bm pp m t S
       some s!"S {showNats S} L {showNats sg} E {showNats (Kaira.BM.locate pp n sg)}"
+  | ["bmcert", c, pp, t, outb, recvb] => do
+    -- certificate of a bounded-distance decoding: the corrected word has all-zero syndromes and differs from the received word in <= t places
+    let c ← findCode cs c; let outb ← bits? outb; let recvb ← bits? recvb
+    let pp ← pp.toNat?; let t ← t.toNat?
+    if outb.length ≠ c.n ∨ recvb.length ≠ c.n then some "reject" else
+    let o := maskOf outb; let r := maskOf recvb
+    let z := (Kaira.BM.synd pp t c.n o).all (· == 0)
+    let d := Kaira.Dist.weight c.n (o ^^^ r)
+    some (if z ∧ d ≤ t then "ok" else s!"no zero-syndromes={z} distance={d}")
   | ["synz", c, bits] => do
     let c ← findCode cs c; let bits ← bits? bits
     match blockwise c.n c.r (syndrome c.HT) bits with
